@@ -325,6 +325,7 @@ pub fn run_matrix(tier: &str, seed: u64, out: &mut Out) {
 
 // ---------------------------------------------------------------- C04: render specification jobs
 
+pub fn val_sexp_pub(v: &J) -> String { val_sexp(v) }
 fn val_sexp(v: &J) -> String {
     use crate::ast::q;
     match v {
